@@ -255,9 +255,25 @@ func Apply(w *world.World, f *world.Flat, ctx sdk.Context, write func(), op *Op,
 		}
 		return res, ""
 	case op.Custom != nil:
-		res = op.Custom(w, ctx)
+		func() {
+			defer func() {
+				if r := recover(); r != nil {
+					halt = fmt.Sprint(r)
+					if strings.HasPrefix(halt, "HARNESS") {
+						panic(r)
+					}
+				}
+			}()
+			res = op.Custom(w, ctx)
+		}()
+		if halt != "" {
+			return world.Result{}, halt
+		}
 		if res.OK {
 			write()
+			if op.Meta != nil && op.Meta["advance"] == "1" {
+				f.H++
+			}
 		}
 		return res, ""
 	case op.EndTo > 0:
@@ -391,7 +407,7 @@ func (e *Explorer) keepForConformance() {
 	}
 	hasEnd := false
 	for _, l := range e.trace {
-		if strings.HasPrefix(l, "end@") {
+		if strings.HasPrefix(l, "end@") || strings.HasPrefix(l, "fullend@") {
 			hasEnd = true
 		}
 	}
